@@ -65,6 +65,7 @@ class Interp:
         self.yields = None
         self.cur_fn = []
         self.class_models = {}
+        self.stop_after = None      # contract hook: verify a PREFIX of the function (returns the locals at that point)
         ctx.locator = self.locate
 
     def locate(self, lineno):
@@ -152,6 +153,8 @@ class Interp:
     def exec_block(self, stmts, env):
         for s in stmts:
             self.exec_stmt(s, env)
+            if self.stop_after is not None and self.depth == 1 and self.stop_after(s):
+                raise PathEnd("return", dict(env.vars), s)
 
     def exec_stmt(self, s, env):
         c = self.ctx
@@ -453,36 +456,35 @@ class Interp:
         return v
 
     def scatter(self, obj, idx, v, lineno):
-        """a[idx] = v with an integer index array.  EXACT when targets are unique (obligation) or when
-        v is a scalar (duplicates then write the same value)."""
+        """a[idx] = v with an integer index array: position p receives v[k] for the k with idx[k] == p (targets pairwise
+        distinct: obligation when v is an array; for a scalar v duplicates write the same value), all other positions
+        keep their value.  Given through a Skolem function hit: position -> source index.  EXACT under the obligations."""
+        M.use("scatter a[idx] = v (unique targets)")
         c = self.ctx
         fi = idx.snapshot()
         n = obj.length
         m = idx.length
+        tgt = lambda k: M.wrapneg(fi(k), n)
         c.oblige("%s:scatter.inbounds@L%s" % (c.fname, lineno),
                  Forall(lambda k: Implies(in_range(k, m), And(I(fi(k)) >= -I(n), I(fi(k)) < I(n)))), "safety", lineno)
         old = obj.snapshot()
-        hit = c.fresh_fun("scat_src")          # position -> some k with idx[k] == position (if any)
+        hit = c.fresh_fun("scat_src")
         if isinstance(v, SArr):
             M.same_len(m, v.length, "scatter", lineno)
             fv = v.snapshot()
             c.oblige("%s:scatter.unique@L%s" % (c.fname, lineno),
-                     Forall(lambda k1, k2: Implies(And(in_range(k1, m), in_range(k2, m), k1 != k2),
-                                                   M.wrapneg(fi(k1), n) != M.wrapneg(fi(k2), n)), nvars=2),
+                     Forall(lambda k1, k2: Implies(And(in_range(k1, m), in_range(k2, m), k1 != k2), I(tgt(k1)) != I(tgt(k2))), nvars=2),
                      "safety", lineno, "scatter targets are pairwise distinct (else NumPy's result is order dependent)")
-            val = lambda p: fv(hit(p))
+            # with unique targets the source index of a written position is unique
+            c.assume(Forall(lambda k: Implies(in_range(k, m), hit(I(tgt(k))) == I(k)), triggers=[], name="scatter.hit.unique"))
+            val = lambda p: fv(hit(I(p)))
         else:
             vv = self.elem_const(v)
             val = lambda p: vv
-        # hit(p) in range and idx[hit(p)] == p   iff   exists k. idx[k] == p
-        is_hit = lambda p: And(in_range(hit(p), m), M.wrapneg(fi(hit(p)), n) == I(p))
-        c.assume(Forall(lambda k: Implies(in_range(k, m), And(in_range(hit(M.wrapneg(fi(k), n)), m),
-                                                              M.wrapneg(fi(hit(M.wrapneg(fi(k), n))), n) == M.wrapneg(fi(k), n))),
-                        triggers=[], name="scatter.hit"))
-        # instantiate the hit axiom eagerly on demand: it is keyed on idx's function; do it by the generic
-        # mechanism through a wrapper trigger
+            c.assume(Forall(lambda k: Implies(in_range(k, m), And(in_range(hit(I(tgt(k))), m), I(tgt(hit(I(tgt(k))))) == I(tgt(k)))),
+                            triggers=[], name="scatter.hit"))
+        is_hit = lambda p: And(in_range(hit(I(p)), m), I(tgt(hit(I(p)))) == I(p))
         self.store_view(obj.with_(), lambda p: Ite(is_hit(p), val(p), old(p)), lineno)
-        obj._scatter = (hit, fi, m)
 
     # ---- loops -----------------------------------------------------------------------
     def do_for(self, s, env):
